@@ -184,6 +184,17 @@ def main():
     ex = engine.explore('c04', 'path_rules', rargs, jobs=ck.jobs, deadline=deadline)
     cands = [('r', v) for v in ck.absorb('apply_branch_rules == explicit flags, else first matching rule, number per the statement', ex, bounds=dict(configs=len(rargs)),
                                          expect_tags=['applied', 'rule:none', 'rule:*', 'rule:rl/*', 'rule:release/*', 'rule:develop'])]
+    # differential validation: label / number / post-mode msym computes for a sampled path's model == the native result
+    for wt in ex.wsamples:
+        if 'flags' not in wt:
+            continue
+        rules = py_rules(wt['rules'])
+        b = wt['branch']
+        r = native.driver().call(op='branch_rules', rules=None if c04.RULESETS[wt['rules']] is None else [list(x) for x in rules],
+                                 branch=None if b is None else native.cps(b), label=wt['flags']['label'], mode=wt['flags']['mode'], num=wt['flags']['num'])
+        ck.validated += 1
+        if not r.get('ok') or (r['label'], r['mode'], r['num']) != (wt['label'], wt['mode'], wt['num']):
+            ck.validation_mismatch.append(dict(rules=wt['rules'], branch=b, flags=wt['flags'], msym=(wt['label'], wt['mode'], wt['num']), native={k: r.get(k) for k in ('label', 'mode', 'num', 'err', 'panic')}))
     ex2 = engine.explore('c04', 'path_hash', hargs, jobs=ck.jobs, deadline=time.time() + 600)
     cands += [('h', v) for v in ck.absorb('hash_int(value, length): <= length digits, no leading zero, deterministic, accepted as u32', ex2, bounds=dict(configs=len(hargs)), expect_tags=['hashed', 'fits_u32'])]
     fcases = [a for a in c03.flow_cases(ck.tier) if a.get('schema') in (None, 'standard')]
